@@ -50,10 +50,11 @@ func (c *connection) SelectLost() {
 	}
 }
 
-// T7Expired injects evT7Timeout (NOT-SELECTED dwell expiry) — TransportRuntime. See the interface doc.
+// T7Expired injects evT7Timeout (NOT-SELECTED dwell expiry), tagged with the dwell that expired
+// (injectT7Timeout) — TransportRuntime. See the interface doc.
 func (c *connection) T7Expired() {
 	if s := c.sup.Load(); s != nil {
-		s.inject(evT7Timeout)
+		s.injectT7Timeout()
 	}
 }
 
